@@ -1,19 +1,26 @@
 #!/bin/sh
-# Must-fail corpus: applies each mutant patch to /repo's working tree, runs the
-# property's quick check, expects exit 1 (VIOLATION), and reverts. usage: selftest.sh [prop]
-cd /verif
-if [ -n "$(git -C /repo status --porcelain --untracked-files=no)" ]; then echo "refusing: /repo has uncommitted changes (commit them first)"; exit 2; fi
+# Must-fail corpus: applies each mutant patch to the repository working tree, runs the
+# property's quick check, expects exit 1 (VIOLATION), and reverts. usage: selftest.sh [prefix]
+# The repository is $VERIF_REPO (default /repo); run on a snapshot (vp run --with-repo) to keep /repo free.
+DIR="$(cd "$(dirname "$0")/.." && pwd)"
+cd "$DIR"
+REPO="${VERIF_REPO:-/repo}"
+export VERIF_REPO="$REPO" VERIF_DIR="$DIR"
+export GOFLAGS=-mod=mod GOPROXY=off GOSUMDB=off GOTOOLCHAIN=local
+[ -x bin/vcheck ] || ./setup.sh
+if [ -n "$(git -C "$REPO" status --porcelain --untracked-files=no)" ]; then echo "refusing: $REPO has uncommitted changes (commit them first)"; exit 2; fi
 fail=0; total=0; killed=0
 for p in selftest/mutants/${1:-C}*.patch; do
   [ -f "$p" ] || continue
   prop=$(basename "$p" | cut -d- -f1)
   total=$((total+1))
-  if ! git -C /repo apply "$PWD/$p" 2>/dev/null; then echo "SKIP (does not apply) $p"; continue; fi
-  if ! (cd /repo && GOFLAGS=-mod=mod GOPROXY=off GOSUMDB=off GOTOOLCHAIN=local go build ./... >/dev/null 2>&1); then
-     echo "SKIP (does not compile) $p"; git -C /repo apply -R "$PWD/$p" ; continue; fi
-  out=$(bin/vcheck check -prop "$prop" -no-evidence 2>/tmp/selftest.err); rc=$?; [ $rc -eq 2 ] && tail -3 /tmp/selftest.err
-  git -C /repo apply -R "$PWD/$p"
-  if [ $rc -eq 1 ]; then killed=$((killed+1)); echo "KILLED  $p  ($(echo "$out" | grep -c '^VIOLATION') violations: $(echo "$out" | grep '^FAILED' | head -1 | sed 's/.*function=//' | cut -c1-90))";
+  if ! git -C "$REPO" apply "$DIR/$p" 2>/dev/null; then echo "SKIP (does not apply) $p"; continue; fi
+  if ! (cd "$REPO" && go build ./... >/dev/null 2>&1); then
+     echo "SKIP (does not compile) $p"; git -C "$REPO" apply -R "$DIR/$p" ; continue; fi
+  out=$(bin/vcheck check -prop "$prop" -no-evidence 2>/tmp/selftest.$$.err); rc=$?; [ $rc -eq 2 ] && tail -3 /tmp/selftest.$$.err
+  rm -f /tmp/selftest.$$.err
+  git -C "$REPO" apply -R "$DIR/$p"
+  if [ $rc -eq 1 ]; then killed=$((killed+1)); echo "KILLED  $p  ($(echo "$out" | grep -c '^VIOLATION') violations: $(echo "$out" | grep '^FAILED' | head -1 | sed 's/.*function=//' | cut -c1-110))";
   else fail=1; echo "MISSED  $p (rc=$rc)"; fi
 done
 echo "selftest: $killed/$total killed"
